@@ -45,6 +45,19 @@ def content(rng, n):
     return bytes(n), "zero"
 
 
+def stored_lookalike(rng):
+    """content whose hand-made fixed-Huffman stream is exactly 5 bytes longer than the content - the length a stored block would have
+    (3 header bits + 8 or 9 bits per literal + 7 bits end-of-block: 23..30 of the bytes are >= 144)"""
+    n = rng.choice([32, 60, 1000, 15999, rng.randint(31, 4000)])
+    high = rng.randint(23, 30)
+    data = bytearray(rng.randrange(144) for _ in range(n))
+    for i in rng.sample(range(n), high):
+        data[i] = rng.randrange(144, 256)
+    data = bytes(data)
+    assert len(sq.deflate_fixed_literals(data)) == n + 5
+    return data
+
+
 def pick_len(rng, maxlen):
     k = rng.random()
     if k < 0.25:
@@ -67,7 +80,7 @@ def pick_sizes(rng):
 
 def strat_fn(rng):
     mode = rng.choice(["mixed", "mixed", "raw", "dynamic", "stored", "fixed", "huffman", "rle", "fast"])
-    names = list(sq.STRATEGIES)
+    names = list(sq.STRATEGIES) + ["fixed-literals"]      # + a stream written out by hand (zlib never emits a literal-only fixed block when a stored one is not longer)
     return (lambda: rng.choice(names)) if mode == "mixed" else (lambda: mode)
 
 
@@ -192,6 +205,10 @@ def group(ctx, rng, P):
         if kind == "standard":
             data, ck = content(rng, pick_len(rng, P["maxlen"]))
             chunks = bounded_split(rng, data, pick_sizes(rng))
+            look = stored_lookalike(rng) if rng.random() < 0.12 else None
+            if look is not None:
+                data, ck, chunks = look, "stored-lookalike", [look]
+                sf = lambda: "fixed-literals"
             if not chunks and rng.random() < 0.5:
                 chunks = [b""]
             strategies = [sf() for _ in chunks]
@@ -200,7 +217,8 @@ def group(ctx, rng, P):
             if len(chunks) >= 2 and rng.random() < 0.3:
                 order = list(range(len(chunks)))
                 rng.shuffle(order) if rng.random() < 0.7 else order.reverse()
-            entry, used = sq.standard_entry(chunks, strategies, gap=rng.choice([0, 0, 1]), order=order)
+            xh = rng.choice([0, 0, 0, 1, 2])
+            entry, used = sq.standard_entry(chunks, strategies, gap=rng.choice([0, 0, 1]), order=order, extra_header=xh)
             exp = dict(kind=kind, data=data)
             meta = dict(kind=kind, content=ck, length=len(data), blocks=len(chunks), storage="permuted" if order else "in-order")
         elif kind == "texture":
@@ -218,7 +236,8 @@ def group(ctx, rng, P):
                 mip_gap = rng.choice([0, 1, 3])
                 if mip_order == list(range(1, len(mips))) and mip_gap == 0:
                     mip_gap = 1
-            entry, expected, used = sq.texture_entry(header, mips, sf, mip_order=mip_order, mip_gap=mip_gap)
+            xh = rng.choice([0, 0, 0, 1, 2])
+            entry, expected, used = sq.texture_entry(header, mips, sf, mip_order=mip_order, mip_gap=mip_gap, extra_header=xh)
             exp = dict(kind=kind, data=expected)
             meta = dict(kind=kind, content="tex", length=len(expected), blocks=sum(len(m) for m in mips), mips=len(mips), storage="permuted" if mip_order else "in-order")
         else:
@@ -248,7 +267,7 @@ def group(ctx, rng, P):
                 rng.shuffle(storage)
                 sec_gap = rng.choice([0, 1, 2])
             entry, sections, used = sq.model_entry(version, stack, runtime, lods, hdrvals["vdecl"], hdrvals["materials"], nl, hdrvals["streaming"], False,
-                                                   lambda d: bounded_split(rng, d, sizes, 150), sf, storage=storage, sec_gap=sec_gap)
+                                                   lambda d: bounded_split(rng, d, sizes, 150), sf, storage=storage, sec_gap=sec_gap, extra_header=rng.choice([0, 0, 0, 1, 2]))
             exp = dict(kind=kind, sections=sections, hdr=hdrvals)
             meta = dict(kind=kind, content="mdl", length=sum(len(s) for s in sections.values()), blocks=len(used), lods=nl, storage="permuted" if storage else "in-order")
         off = db.add(entry, gap_blocks=rng.choice([0, 0, 1, 5]))
